@@ -17,6 +17,7 @@ RULE = (
     "W-soup/W-gram/W-corpus(xss.md, html fixtures)/W-unicode plus metacharacter-injection templates for every render path; "
     "oracle = strict total lexer accepting only the renderer's own tag/attribute vocabulary with &<>\" escaped and stack discipline. "
     "Non-trivial = output containing >=1 attribute or >=1 escaped metacharacter; distinct by (conf id, source)."
+    " Also: the boundary-value catalogue, the W-path families and every sequence of <=5 delimiter words for 8 pairs of delimiter kinds (tags must never cross)."
 )
 ASSUMPTIONS = ["default HTML renderer, no highlight callback, options.html false (as the property states)",
                "scanner vocabulary: p h1-h6 blockquote ul ol li pre code em strong s a img br hr table thead tbody tr th td; "
